@@ -24,9 +24,10 @@ Alpha(f, v) ==
     [] f = "tsv" -> {"a", "TAB", "LF", "CR", "BS", "t", "n", "r", "Q", "SP", "U2", "U4"}
     [] f = "json" -> {"a", "Q", "BS", "LF", "CR", "TAB", "C1", "BSP", "SLASH", "U2", "U4", "u", "n", "COMMA", "LBRACE", "SP"}
     [] f = "dkvp" -> {"a", "FS", "PS", "LF", "CR", "Q", "SP", "BS", "TAB", "HASH", "U2", "U4", "1"}
-    [] f = "nidx" -> {"a", "FS", "LF", "CR", "Q", "BS", "TAB", "HASH", "U2", "U4", "1", "EQ"} \cup (IF v = "comma" THEN {"SP"} ELSE {"COMMA"})
-    [] f = "xtab" -> {"a", "PS", "LF", "CR", "Q", "BS", "TAB", "HASH", "U2", "U4", "1", "EQ", "COMMA"}
-    [] f = "pprint" -> {"a", "FS", "Q", "BS", "HASH", "U2", "U4", "1", "DASH", "PIPE", "PLUS", "EQ", "COMMA", "LF", "CR", "TAB"}
+    [] f = "nidx" -> {"a", "FS", "LF", "CR", "Q", "BS", "TAB", "HASH", "U2", "U4", "1", "EQ", "NBSP", "IDSP"} \cup (IF v = "comma" THEN {"SP"} ELSE {"COMMA"})
+    [] f = "xtab" -> {"a", "PS", "LF", "CR", "Q", "BS", "TAB", "HASH", "U2", "U4", "1", "EQ", "COMMA", "NBSP"}
+    \* (NBSP, IDSP, EMSP: white space other than the separator U+0020 -- plain characters of a space-separated format)
+    [] f = "pprint" -> {"a", "FS", "Q", "BS", "HASH", "U2", "U4", "1", "DASH", "PIPE", "PLUS", "EQ", "COMMA", "LF", "CR", "TAB", "NBSP", "IDSP", "EMSP"}
     [] f = "markdown" -> {"a", "FS", "Q", "BS", "HASH", "U2", "U4", "DASH", "PIPE", "COLON", "LF", "CR", "TAB"}
     [] f = "csvlite" -> {"a", "FS", "Q", "CR", "LF", "SP", "BS", "TAB", "HASH", "U2", "U4", "1"}
 Cells(A, k) == UNION {[1..n -> A] : n \in 0..k}
